@@ -102,10 +102,20 @@ func exec(i in) vh.Out {
 			rp = parse(p.String(), i.Arch)
 		}
 		fs := fullStr(i.S)
-		obs := map[string]interface{}{"verbatim": v, "parse": p, "full": full, "clean": cl, "reparse": rp, "fullstr": fs}
+		var fs2 *string
+		if fs != nil {
+			fs2 = fullStr(*fs)
+		}
+		obs := map[string]interface{}{"verbatim": v, "parse": p, "full": full, "clean": cl, "reparse": rp, "fullstr": fs, "fullstr2": fs2}
 		coq := "(CParse " + vh.CoqBytes(sys) + " " + vh.CoqBytes(i.S) + " " + vh.CoqBytes(i.Arch) + " " + coqOptChan(v) + " " +
-			coqOptChan(p) + " " + coqOptStr(full) + " " + coqOptChan(cl) + " " + coqOptChan(rp) + " " + coqOptStr(fs) + ")"
+			coqOptChan(p) + " " + coqOptStr(full) + " " + coqOptChan(cl) + " " + coqOptChan(rp) + " " + coqOptStr(fs) + " " + coqOptStr(fs2) + ")"
 		tags := []string{"parse-rejected", shapeTag(i.S)}
+		if fs != nil && *fs != "" {
+			tags = append(tags, "fullstr-nonempty")
+			if strings.Contains(i.S, "//") || strings.HasPrefix(i.S, "/") || strings.HasSuffix(i.S, "/") {
+				tags = append(tags, "fullstr-dropped-empty-components")
+			}
+		}
 		if p != nil {
 			tags[0] = "parse-accepted"
 			if p.Name != i.S {
